@@ -430,6 +430,8 @@ class Program:
             cn, fn = qual.split(".", 1)
             c = self.cls(module, cn)
             if fn not in c.methods:
+                if fn in m.functions and fn.startswith("_"):
+                    return m.functions[fn]      # a private method that never used `self`, turned into a function of the same unit
                 raise AnalysisError(f"anchor vanished: method {qual} in {m.relpath}")
             return c.methods[fn]
         if qual not in m.functions:
